@@ -105,6 +105,16 @@ def placeholder(st, t, kind="nat"):
     return VNat(a)
 
 
+def _aligned_windows(st, A, a, B, b):
+    """Two windows of one monotone array (a cumulative sum) walked in lock-step (zip): the window that starts later
+    holds, position by position, the larger element."""
+    if A[0] == "slice" and B[0] == "slice" and A[1] == B[1] and (A[1][0] == "cumsum" or st.has_prop("mono", A[1])):
+        if st.ge(as_poly(B[2]), as_poly(A[2])):
+            st.add_ge(b - a)
+        elif st.ge(as_poly(A[2]), as_poly(B[2])):
+            st.add_ge(a - b)
+
+
 def label_of(t):
     """Is t a sequence of labels (user values) rather than naturals?"""
     if t in LABEL_LEAVES:
@@ -237,7 +247,10 @@ def seq_elem(I, st, v, ip=None, label=False):
     if t[0] == "single":
         return thaw(t[1])
     if t[0] == "zip":
-        return VTup([seq_elem(I, st, VSeq(t[1])), seq_elem(I, st, VSeq(t[2]))])
+        x, y = seq_elem(I, st, VSeq(t[1])), seq_elem(I, st, VSeq(t[2]))
+        if ip is None and isinstance(x, VNat) and isinstance(y, VNat):
+            _aligned_windows(st, t[1], x.p, t[2], y.p)
+        return VTup([x, y])
     if t[0] == "sel" and ip is None:
         return rename_selected(st, seq_elem(I, st, VSeq(t[1]), None), t[2])
     if t[0] == "lfilter":
